@@ -93,6 +93,9 @@ def run(ctx):
         "monotonicity of Yeo-Johnson across the sliver 0 < w < EPS (not claimed; DESIGN 5/C02 G)",
         "Log with a base < 1 is decreasing: outside the positivity clause (generators use base > 1)",
     ]
+    ctx.checker_cmd = (f"cd /verif && ./check {PID} --tier {ctx.tier}  (make -C coq Props/{PID}.vo "
+                       f"Proofs/TransformTac.vo; coqc on the generated E3_{PID}_*.v: one "
+                       "`Goal close_R (model args x) y_impl tol. Proof. tr_solve. Qed.` per evaluation)")
     import time
     t0 = time.time()
     proved = cm.prove(ctx, extractors=["c01"], extra_targets=["Proofs/TransformTac.vo"])
